@@ -18,7 +18,7 @@
 From Coq Require Import List ZArith Permutation Sorted.
 From TskVerif Require Import Base.Common C07.Model C07.ListLemmas C07.CmpLemmas C07.SortProofs
      C07.RaggedProofs C07.TopProofs C07.IdemProofs C07.PartialProofs C07.MutParentsProofs C07.SweepProofs
-     C07.IndexProofs C07.DedupProofs C07.PipelineProofs C07.Refuted C07.Examples.
+     C07.IndexProofs C07.DedupProofs C07.PipelineProofs C07.SquashProofs C07.Refuted C07.Examples.
 Import ListNotations.
 Open Scope Z_scope.
 
@@ -156,6 +156,18 @@ Theorem deduplicate_sites_keeps_first : forall t t',
              exists s s', get (t_sites t) (m_site m) = Ok s /\ get (t_sites t') (m_site m') = Ok s' /\
                           s_pos s' = s_pos s) (t_muts t) (t_muts t').
 Proof. exact deduplicate_sites_spec. Qed.
+
+(* tsk_squash_edges (tables.c 13401; EdgeTable.squash), whenever it succeeds on edges with
+   left < right: the output covers exactly the same (parent, child, position) triples as the
+   input, and no two consecutive output edges could be merged further (same parent and child and
+   abutting).  (It fails with TSK_ERR_BAD_EDGES_CONTRADICTORY_CHILDREN on overlapping edges of
+   one (parent, child): differential only.) *)
+Theorem squash_covers_same_and_is_maximal : forall Q edges out,
+  qsorts_ok Q -> (forall e, In e edges -> e_left e < e_right e) ->
+  squash_edges Q edges = Ok out ->
+  (forall p c x, cov edges p c x <-> cov out p c x) /\
+  Sorted (fun a b => ~ mergeable a b) out.
+Proof. exact squash_edges_spec. Qed.
 
 (* the repair pipeline, as far as it is proved: for a referentially intact, logically
    consistent collection ([consistent_input]: edges inside [0,L) with the parent strictly older,
